@@ -112,20 +112,27 @@ class Simulator:
         jac_fn = None
         if self.use_jacobian:
             try:
-                _jac = to_symbolic_model(self.model).jacobian()
+                _sym = to_symbolic_model(self.model)
+                _jac = _sym.jacobian()
+                _par_names = list(_sym.parameters)
                 _jac_fn = lambdify(
                     (
                         "time",
                         self.model.get_variable_names(),
-                        self.model.get_parameter_names(),
+                        _par_names,
                     ),
                     _jac,
                 )
-                jac_fn = lambda t, x: _jac_fn(  # noqa: E731
-                    t,
-                    x,
-                    self.model._parameters.values(),  # noqa: SLF001
-                )
+
+                def jac_fn(t: float, x: ArrayLike) -> ArrayLike:
+                    # The values, as they are now (they might have been updated)
+                    if (cache := self.model._cache) is None:  # noqa: SLF001
+                        cache = self.model._create_cache()  # noqa: SLF001
+                    return _jac_fn(
+                        t,
+                        x,
+                        [cache.all_parameter_values[k] for k in _par_names],
+                    )
 
             except Exception as e:  # noqa: BLE001
                 _LOGGER.warning(str(e), stacklevel=2)
